@@ -233,7 +233,7 @@ def _out_of_range(rng, tier):
 
 
 def gen_cases(rng, tier):
-    n_in, n_out = (44, 10) if tier == 'quick' else (520, 80)
+    n_in, n_out = (60, 14) if tier == 'quick' else (800, 120)
     cases = []
     for _ in range(n_in):
         cases.append(_gen_dataset(rng, tier, 'in'))
